@@ -50,12 +50,13 @@ enum OpKind : int {
     OP_WRAP,
     OP_LOAD_TWO,
     OP_SWAP,
+    OP_PIPE,
     OP_NKINDS
 };
 const char *const OP_NAMES[OP_NKINDS] = {"Construct", "DefaultCtor", "Write",  "CopyCtor",   "MoveCtor",
                                          "CopyAssign", "MoveAssign", "ConvertCopy", "ConvertMove", "Dump",
                                          "Load",      "LoadAssign", "Redump", "Destroy",    "Lookup", "Wrap",
-                                         "LoadTwo",   "Swap"};
+                                         "LoadTwo",   "Swap",       "Pipe"};
 enum FaultKind : int { F_NONE, F_ALLOC, F_EOF, F_IOTHROW, F_TEAR, F_CUDA, F_NKINDS };
 const char *const FAULT_NAMES[F_NKINDS] = {"none", "alloc", "eof", "iothrow", "tear", "cuda"};
 
@@ -82,6 +83,7 @@ struct Plan {
     int fe = 0; // sticky floating-point exception flags (FE_* mask) the thread already carries when each operation starts
     int index = -1; // premain profile: which of the fixed pre-main plans this is
     int en = 0; // value errno already holds when each operation starts (left over from an earlier, unrelated call)
+    int unwind = 0; // library calls are made from a destructor that runs during stack unwinding (an exception is in flight)
     std::vector<Op> ops;
 };
 
@@ -92,7 +94,7 @@ std::string plan_text(const Plan &p)
     o << "world hist\n";
     o << "run property=" << p.property << " profile=" << p.profile << " seed=" << p.seed << " nslots=" << p.nslots
       << " getbuf=" << p.getbuf << " putbuf=" << p.putbuf << " exc=" << p.exc << " vmode=" << p.vmode
-      << " nice=" << p.nice << " pre=" << p.pre << " post=" << p.post << " seek=" << p.seek << " fe=" << p.fe << " index=" << p.index << " en=" << p.en << "\n";
+      << " nice=" << p.nice << " pre=" << p.pre << " post=" << p.post << " seek=" << p.seek << " fe=" << p.fe << " index=" << p.index << " en=" << p.en << " unwind=" << p.unwind << "\n";
     for (auto &op : p.ops) {
         o << "op " << OP_NAMES[op.kind] << " a=" << op.a << " b=" << op.b;
         if (op.stack >= 0)
@@ -168,6 +170,8 @@ bool parse_plan(std::istream &is, Plan &p, std::string &expect)
                     p.index = std::atoi(v.c_str());
                 else if (k == "en")
                     p.en = std::atoi(v.c_str());
+                else if (k == "unwind")
+                    p.unwind = std::atoi(v.c_str());
             }
             continue;
         }
@@ -419,7 +423,35 @@ struct World {
 #endif
         int rc = 0;
         try {
-            fn();
+            if (plan.unwind) {
+                // The call is made by a destructor while ANOTHER exception is propagating
+                // (std::uncaught_exceptions() == 1): a guard object that checkpoints, restores
+                // or copies a field on scope exit. What the call throws itself is carried out
+                // of the destructor by hand and rethrown once the unwinding is over.
+                struct Marker {
+                };
+                std::exception_ptr thrown;
+                struct Guard {
+                    Fn &f;
+                    std::exception_ptr &out;
+                    ~Guard()
+                    {
+                        try {
+                            f();
+                        } catch (...) {
+                            out = std::current_exception();
+                        }
+                    }
+                };
+                try {
+                    Guard g{fn, thrown};
+                    throw Marker{};
+                } catch (const Marker &) {
+                }
+                if (thrown)
+                    std::rethrow_exception(thrown);
+            } else
+                fn();
         } catch (const std::bad_alloc &) {
             rc = 1;
             what = "bad_alloc";
@@ -1303,6 +1335,54 @@ struct World {
                 }
                 cnt.inc("redump_compared");
             }
+            break;
+        }
+        case OP_PIPE: {
+            // Writer and reader ends of one pipe: slot b is dumped into a BUFFERED output stream
+            // that is not flushed, and loaded into slot a from an input stream tied to it
+            // (in.tie(&out)): the first read must flush the writer, as the iostream contract says.
+            if (B.state != S_LIVE || a == b || !ops_of(B.stack).has_io || !ops_of(B.stack).has_core)
+                break;
+            destroy_slot(A);
+            Bytes pipe;
+            SimOStreamBuf ob(pipe, (size_t)plan.putbuf, -1);
+            std::ostream os(&ob);
+            SimIStreamBuf ib(pipe, 0, (size_t)-1, (size_t)plan.getbuf, 0, false, true);
+            ib.refill_budget = 1u << 22;
+            std::istream is(&ib);
+            is.tie(&os);
+            if (plan.exc == 1) {
+                os.exceptions(std::ios::badbit);
+                is.exceptions(std::ios::badbit);
+            } else if (plan.exc == 2) {
+                os.exceptions(std::ios::badbit | std::ios::failbit);
+                is.exceptions(std::ios::badbit | std::ios::failbit);
+            }
+            const SlotOps &o = ops_of(B.stack);
+            Op plain = op;
+            plain.fkind = F_NONE;
+            int rcode = guarded(plain, [&] { o.dump(B.obj, os); }, what, fired);
+            executed = true;
+            src_slot = b;
+            if (rcode) {
+                violate(opi, "unexpected-throw", B.stack, name, what);
+                return;
+            }
+            void *mem = raw_alloc(o);
+            rcode = guarded(plain, [&] { o.load(mem, is); }, what, fired);
+            if (rcode) {
+                std::free(mem);
+                violate(opi, "unexpected-throw", B.stack, name, "loading from the reading end of a pipe whose (tied) writing end holds unflushed bytes: " + what);
+                return;
+            }
+            A.state = S_LIVE;
+            A.stack = B.stack;
+            A.obj = mem;
+            A.model = B.model;
+            ++mutating;
+            cnt.inc("probe.dump_and_load_through_a_tied_pipe");
+            if (ob.accepted < pipe.size() || plan.putbuf > 0)
+                cnt.inc("probe.pipe_writer_was_buffered");
             break;
         }
         case OP_SWAP: {
@@ -2367,6 +2447,7 @@ Plan gen_plan(const std::string &property, const std::string &profile, uint64_t 
         p.fe = rk.chance(0.25) ? fes[rk.below(6)] : 0;
         static const int ens[] = {EINTR, EAGAIN, ERANGE, ENOMEM, EIO};
         p.en = rk.chance(0.3) ? ens[rk.below(5)] : 0;
+        p.unwind = rk.chance(0.15) ? 1 : 0;
     }
     double w[OP_NKINDS] = {0};
     bool f_alloc = false, f_stream = false, f_cuda = false;
@@ -2375,27 +2456,27 @@ Plan gen_plan(const std::string &property, const std::string &profile, uint64_t 
     if (profile == "ownership" || profile == "conversion" || profile == "roundtrip")
         p.nice = rk.chance(0.5) ? 1 : 0; // lookups need configurations with a usable domain
     if (profile == "ownership") {
-        double ww[] = {3, 0.5, 4, 3, 2, 4, 2, 1.5, 0.7, 1.5, 1.5, 1, 0.3, 1.5, 2.5, 1.5, 0.4, 1.2};
+        double ww[] = {3, 0.5, 4, 3, 2, 4, 2, 1.5, 0.7, 1.5, 1.5, 1, 0.3, 1.5, 2.5, 1.5, 0.4, 1.2, 0.3};
         std::copy(ww, ww + OP_NKINDS, w);
         fault_run = rk.chance(0.5);
         f_alloc = fault_run;
         f_stream = fault_run && rk.chance(0.5);
         f_cuda = fault_run;
     } else if (profile == "conversion") {
-        double ww[] = {3, 0, 2, 0.7, 0.3, 0.5, 0.2, 6, 2, 0, 0, 0, 0, 0.7, 1.5, 0.5, 0, 0.4};
+        double ww[] = {3, 0, 2, 0.7, 0.3, 0.5, 0.2, 6, 2, 0, 0, 0, 0, 0.7, 1.5, 0.5, 0, 0.4, 0};
         std::copy(ww, ww + OP_NKINDS, w);
         fault_run = rk.chance(0.4);
         f_alloc = fault_run;
         f_cuda = fault_run;
     } else if (profile == "roundtrip") {
-        double ww[] = {3, 0, 2, 0.3, 0, 0.3, 0, 0.5, 0, 4, 4, 1, 3, 0.5, 1.0, 0.7, 1.5, 0.3};
+        double ww[] = {3, 0, 2, 0.3, 0, 0.3, 0, 0.5, 0, 4, 4, 1, 3, 0.5, 1.0, 0.7, 1.5, 0.3, 1.0};
         std::copy(ww, ww + OP_NKINDS, w);
     } else if (profile == "portability") {
-        double ww[] = {3, 0, 1.5, 0, 0, 0, 0, 0.3, 0, 4, 5, 0.5, 1.5, 0.5, 0, 0.3, 0.7, 0};
+        double ww[] = {3, 0, 1.5, 0, 0, 0, 0, 0.3, 0, 4, 5, 0.5, 1.5, 0.5, 0, 0.3, 0.7, 0, 0.3};
         std::copy(ww, ww + OP_NKINDS, w);
         p.vmode = VAL_FINITE;
     } else { // ub
-        double ww[] = {3, 0.3, 3, 1.5, 1, 1.5, 1, 1.5, 0.5, 1.5, 1.5, 0.7, 0.7, 1, 7, 1.0, 0.5, 0.8};
+        double ww[] = {3, 0.3, 3, 1.5, 1, 1.5, 1, 1.5, 0.5, 1.5, 1.5, 0.7, 0.7, 1, 7, 1.0, 0.5, 0.8, 0.3};
         std::copy(ww, ww + OP_NKINDS, w);
         lookups = true;
         p.nice = 1;
@@ -2734,6 +2815,15 @@ Plan gen_plan(const std::string &property, const std::string &profile, uint64_t 
             op.b = it->first;
             break;
         }
+        case OP_PIPE:
+            if (dis.io(g_stacks[gs[src].stack]) || g_stacks[gs[src].stack].device)
+                continue;
+            if (dst == src)
+                dst = (dst + 1) % p.nslots;
+            op.a = dst;
+            op.b = src;
+            gs[dst] = gs[src];
+            break;
         case OP_SWAP: {
             std::vector<int> tg;
             for (int i = 0; i < p.nslots; ++i)
